@@ -1473,6 +1473,9 @@ bool SoPlexBase<R>::_evaluateResult(
       return true;
 
    case SPxSolverBase<T>::ABORT_TIME:
+      if(usingRefinedLP)
+         solver.clearRowObjs();
+
       stoppedTime = true;
       return true;
 
